@@ -174,16 +174,16 @@ def runOp (op : String) : P String := do
     let g ← P.tg (α := α); let n ← P.str; let md ← P.time
     pure (Out.exc Out.tg (g.alignBoundaries n md))
   | _ =>
-    match runOpAudio (α := α) op with
+    match runOpAudio α op with
     | some p => p
     | none =>
-    match runOpNumeric (α := α) op with
+    match runOpNumeric α op with
     | some p => p
     | none =>
-    match runOpKlatt (α := α) op with
+    match runOpKlatt α op with
     | some p => p
     | none =>
-    match runOpIO (α := α) op with
+    match runOpIO α op with
     | some p => p
     | none => throw s!"unknown op {op}"
 where
